@@ -24,7 +24,8 @@ MIN = {"quick": {"structure": 1500, "range[-1,1]": 1500, "inv:label-values": 700
                     "single-label": 15000, "sliding==pointwise": 4000, "none-iff-empty-window": 30000}}
 REQUIRED_CELLS = {t: tuple("path_type:" + p for p in ("shortest", "fastest", "foremost", "shortest_fastest",
                                                      "fastest_shortest")) + ("result:None", "profile_size:2",
-                                                                             "ids:str", "ids:int")
+                                                                             "ids:str", "ids:int", "alphas:raw-floats",
+                                                                             "relabel:mixed-types")
                   for t in ("quick", "thorough")}
 PTYPES = ("shortest", "fastest", "foremost", "shortest_fastest", "fastest_shortest")
 
@@ -82,7 +83,12 @@ def one(ctx, dn):
     nvals = rng.randint(1, 3)
     labels = {x: {a: rng.choice(["a", "b", "c"][:nvals]) for a in attrs} for x in nodes}
     psize = rng.randint(1, len(attrs))
-    alphas = rng.sample([0.5, 1, 2.5], rng.randint(1, 2))
+    if rng.random() < 0.25:
+        # raw float alphas: successive calls whose alphas agree to two decimals but differ
+        alphas = [rng.choice((1.0, 1.004, 0.996, 2.5, 2.504, 0.5, 0.496))]
+        ctx.cell("alphas:raw-floats")
+    else:
+        alphas = rng.sample([0.5, 1, 2.5], rng.randint(1, 2))
     ptype = rng.choice(PTYPES)
     G = build(dn, presence, labels)
     m = Model(False, True)
@@ -131,7 +137,13 @@ def one(ctx, dn):
     # invariance under renaming of label values
     perm = ["a", "b", "c"]
     rng.shuffle(perm)
-    relabel = {a: dict(zip(["a", "b", "c"], [x.upper() + "!" for x in perm])) for a in attrs}
+    if rng.random() < 0.5:
+        relabel = {a: dict(zip(["a", "b", "c"], [x.upper() + "!" for x in perm])) for a in attrs}
+    else:
+        # new values of mixed types whose text coincides (1 / "1" / 1.5 / "None" / None ...): still one-to-one
+        pool = rng.sample([1, "1", None, "None", 2.5, "2.5", (1,), "(1,)"], 3)
+        relabel = {a: dict(zip(["a", "b", "c"], pool)) for a in attrs}
+        ctx.cell("relabel:mixed-types")
     try:
         r2 = call(build(dn, presence, labels, relabel=relabel))
         ctx.expect("inv:label-values", r2, res, dict(q, relabel=relabel), eq=close)
@@ -164,6 +176,14 @@ def one(ctx, dn):
             exp4[x] = 1.0 if (reach - {x}) else 0.0
         want = {"%.2f" % a: {"l1": exp4} for a in alphas}
         ctx.expect("single-label", r4, want, q, eq=close)
+        # the same closed form when the shared label is requested together with (after) a mixed one
+        both = {x: dict(labels[x], same="z") for x in nodes}
+        r5 = al.delta_conformity(build(dn, presence, both), start, delta, alphas, attrs + ["same"], profile_size=1,
+                                 path_type=ptype)
+        ctx.expect("single-label(among several)", {a: v.get("same") for a, v in r5.items()},
+                   {"%.2f" % a: exp4 for a in alphas}, q, eq=close)
+        ctx.expect("profiles-independent", {a: {p: v[p] for p in v if p != "same"} for a, v in r5.items()},
+                   {a: {p: v[p] for p in v if "_" not in p} for a, v in res.items()}, q, eq=close)
     except pathsref.TooMany:
         ctx.skip("too many paths")
     except Exception as ex:
